@@ -116,6 +116,8 @@ inline const std::vector<Shape>& shapes() {
       s.push_back(Shape{w != 0, zz, "0d0100", false, {}, 0, 0, th});
     }
     s.push_back(Shape{w != 0, "08", "0100", true, {}, 0, 0, false});   // + defaults row with ID prefix 0d
+    s.push_back(Shape{w != 0, "08", "0200000034", false, {}, 0, 0, false});   // 5 ID bytes: beyond the 4 the lookup key holds unfolded
+    s.push_back(Shape{w != 0, "08", "020000003456", false, {}, 0, 0, false}); // 6 ID bytes
     s.push_back(Shape{w != 0, "08", "0d", false, {}, 0, 0, true});
   }
   for (int w = 0; w < 2; w++) {
